@@ -363,6 +363,13 @@ for _r in (0, 1, 2, 7):
         ILLEGAL.append("void f(double *a +dimension(%s)+rank(%d), int n)" % (_d, _r))
 for _d in ("3", "n"):
     ILLEGAL.append("void f(int *a +dimension(%s)+value, int n)" % _d)
+# the implied() helper functions with every argument count from 0 to 3: only size(a), size(a,d), len(s), len_trim(s) are legal
+for _fn, _ok in (("size", (1, 2)), ("len", (1,)), ("len_trim", (1,))):
+    for _n in range(0, 4):
+        if _n in _ok:
+            continue
+        _args = ", ".join(["s", "1", "2"][:_n])
+        ILLEGAL.append("void f(char *s, int *a +rank(1), int n +implied(%s(%s)))" % (_fn, _args))
 ILLEGAL = list(dict.fromkeys(ILLEGAL))
 
 
